@@ -9,7 +9,9 @@ from mc import lib
 PROPERTY = 'C16'
 RULE = ('full product: every target string over {A,K} of length 0..L x every query of length 1..4 x ignore_mods; '
         'modified layer: every target of length<=Lm with a tagged modification at every residue/terminus x every '
-        'query with/without tags; coverage/percent over every ordered list of <=2 queries; a state is distinct by '
+        'query with/without tags (one or two modifications per site, either order); interval layer: every target with one '
+        'modified interval x every query with/without an interval; coverage/percent over every ordered list of <=2 queries '
+        '(strings, annotation objects, mixed); a state is distinct by '
         'its (kind,target,query-set) tuple and non-trivial when the target is non-empty and at least one query occurs')
 ASSUMPTIONS = ['residue alphabet {A,K} forces overlapping occurrences; tags are numeric mass shifts 1,2',
                'a stretch contains a terminus only when it starts at 0 / ends at n (terminal mods are compared then)',
@@ -37,6 +39,8 @@ def shards(tier):
         out += [{'kind': 'plain', 'n': n, 'pre': ''.join(pre)} for pre in itertools.product(ALPHA, repeat=k)]
     for n in range(1, d['Lm'] + 1):
         out += [{'kind': 'mod', 'n': n, 'pre': a} for a in ALPHA]
+        if n >= 2:
+            out += [{'kind': 'iv', 'n': n, 'pre': a} for a in ALPHA]
         out += [{'kind': 'unordered', 'n': n, 'pre': ''.join(t), 'tm0': m0}
                 for t in itertools.product(ALPHA, repeat=n) for m0 in (0, 1, 2)]
     return out
@@ -60,6 +64,15 @@ def gen(shard, tier):
                 yield {'kind': 'mod', 't': t, 'tslot': tslot}, n + (tslot is not None), True
                 if tslot is not None:
                     yield {'kind': 'mod', 't': t, 'tslot': tslot, 'ttag': 11}, n + 2, True
+                    yield {'kind': 'mod', 't': t, 'tslot': tslot, 'ttag': 12}, n + 2, True
+    elif shard['kind'] == 'iv':
+        for t in _strings(n, n):
+            if not t.startswith(pre):
+                continue
+            for a in range(n):
+                for b in range(a + 1, n + 1):
+                    for tags in ([1], [1, 2], [1, 1]):
+                        yield {'kind': 'iv', 't': t, 'iv': [a, b, tags]}, n + len(tags), True
     else:
         for t in _strings(n, n):
             if not t.startswith(pre):
@@ -71,13 +84,17 @@ def gen(shard, tier):
 
 
 # ---- rendering (own, no library) -------------------------------------------------------------------------------
-def render(seq, res=None, nterm=None, cterm=None):
+def render(seq, res=None, nterm=None, cterm=None, iv=None):
     res = res or {}
     s = ''
     if nterm:
         s += ''.join(f'[{m}]' for m in nterm) + '-'
     for i, a in enumerate(seq):
+        if iv and iv[0] == i:
+            s += '('
         s += a + ''.join(f'[{m}]' for m in res.get(i, ()))
+        if iv and iv[1] == i + 1:
+            s += ')' + ''.join(f'[{m}]' for m in iv[2])
     if cterm:
         s += '-' + ''.join(f'[{m}]' for m in cterm)
     return s
@@ -85,7 +102,7 @@ def render(seq, res=None, nterm=None, cterm=None):
 
 def model(seq, slot, tag):
     """tag 1 / 2: one modification; tag 11: the modification 1 written twice on the same site"""
-    tags = [1, 1] if tag == 11 else [tag]
+    tags = {11: [1, 1], 12: [1, 2], 21: [2, 1]}.get(tag, [tag])
     res, nt, ct = {}, None, None
     if slot == 'n':
         nt = tags
@@ -174,7 +191,7 @@ def check(case, ctx):
         for m in range(1, min(3, n) + 1):
             for q in _strings(m, m):
                 for qslot in [None, 'n', 'c'] + list(range(m)):
-                    for qtag in (1, 2, 11):
+                    for qtag in (1, 2, 11, 12, 21):
                         if qslot is None and qtag != 1:
                             continue
                         Q = model(q, qslot, qtag)
@@ -193,6 +210,66 @@ def check(case, ctx):
                                 ctx.evals += 1
                                 if st != 'ok' or list(got) != exp:
                                     ctx.fail('coverage-mod', exp, got, call=['coverage', ts, [qs], acc, ig])
+                        # two listed peptides with the same residues and different modifications, given as strings,
+                        # as annotation objects, and mixed (the documentation recommends passing parsed objects)
+                        if qtag in (1, 12):
+                            for Q2 in (model(q, None, 1), model(q, 0, 2 if (qslot, qtag) == (0, 1) else 1)):
+                                if Q2 == Q:
+                                    continue
+                                qs2 = render(*Q2)
+                                for order in ((Q, Q2), (Q2, Q)):
+                                    texts = [render(*order[0]), render(*order[1])]
+                                    for acc in (False, True):
+                                        exp = cover(T, list(order), acc, False)
+                                        for form in ('str', 'annotation', 'mixed'):
+                                            if form == 'str':
+                                                arg = list(texts)
+                                            elif form == 'annotation':
+                                                arg = [p.parse(x) for x in texts]
+                                            else:
+                                                arg = [texts[0], p.parse(texts[1])]
+                                            st, got = lib.call(p.coverage, ts if form == 'str' else p.parse(ts), arg, acc, False)
+                                            ctx.evals += 1
+                                            if st != 'ok' or list(got) != exp:
+                                                ctx.fail('coverage-list', exp, got, call=['coverage', ts, texts, acc, False],
+                                                         given_as=form)
+        ctx.outcome = [ts, nocc]
+    elif kind == 'iv':
+        t = case['t']
+        n = len(t)
+        a, b, tags = case['iv']
+        ts = render(t, iv=(a, b, tags))
+        nocc = 0
+        for m in range(1, min(4, n) + 1):
+            for q in _strings(m, m):
+                qivs = [None] + [(qa, qb, qt) for qa in range(m) for qb in range(qa + 1, m + 1)
+                                 for qt in ([1], [1, 2], [2, 1], [1, 1], [2])]
+                for qiv in qivs:
+                    qs = render(q, iv=qiv)
+                    exp, dontcare = [], []
+                    for i in range(0, n - m + 1):
+                        if t[i:i + m] != q:
+                            continue
+                        inside = i <= a and b <= i + m
+                        outside = b <= i or a >= i + m
+                        if not inside and not outside:
+                            dontcare.append(i)       # the stretch cuts the interval: outside the clause
+                        elif inside and qiv is not None and (qiv[0], qiv[1]) == (a - i, b - i) and \
+                                sorted(qiv[2]) == sorted(tags):
+                            exp.append(i)
+                        elif outside and qiv is None:
+                            exp.append(i)
+                    nocc += len(exp)
+                    st, got = lib.call(p.find_subsequence_indices, ts, qs, False)
+                    ctx.evals += 1
+                    if st != 'ok' or sorted(x for x in got if x not in dontcare) != exp:
+                        ctx.fail('find-interval', exp, got, call=['find_subsequence_indices', ts, qs, False],
+                                 offsets_cutting_the_interval=dontcare)
+                    st, got = lib.call(p.find_subsequence_indices, ts, qs, True)
+                    ctx.evals += 1
+                    expi = [i for i in range(0, n - m + 1) if t[i:i + m] == q]
+                    if st != 'ok' or sorted(got) != expi:
+                        ctx.fail('find-interval-ignore-mods', expi, got, call=['find_subsequence_indices', ts, qs, True])
         ctx.outcome = [ts, nocc]
     else:
         t, tm = case['t'], case['tm']
